@@ -997,7 +997,7 @@ fn main() {
                     k += 1;
                     // KeepOnly(M+P): exactly as many samples with a non-zero weight as there are parameters, N larger
                     let mp = c.fam.m() + c.fam.p();
-                    let kinds = [WKind::Ones, WKind::Threes, WKind::Ramp, WKind::InvSigma, WKind::Spread, WKind::Tiny, WKind::Dyadic, WKind::NegAt(3), WKind::ZeroAt(1), WKind::KeepOnly(mp), WKind::KeepOnly(mp + 1), WKind::NegRamp, WKind::NegRampZeroAt(2), WKind::Astro];
+                    let kinds = [WKind::Ones, WKind::Threes, WKind::Ramp, WKind::InvSigma, WKind::Spread, WKind::Tiny, WKind::Dyadic, WKind::NegAt(3), WKind::ZeroAt(1), WKind::KeepOnly(mp), WKind::KeepOnly(mp + 1), WKind::NegRamp, WKind::NegRampZeroAt(2), WKind::Astro, WKind::Mask(1), WKind::Signs];
                     if c.w != WKind::None && (thorough || k % 4 == 0) {
                         c.w = kinds[(k as usize / 4) % kinds.len()];
                         visit(c)
